@@ -63,13 +63,15 @@ class Spec:
     def __init__(self, accept, declared, open=False, readings=()):
         """accept: outcomes; readings: one name per outcome (same order) when the spec is open."""
         names = list(readings) if len(readings) == len(accept) else ["reading_%d" % i for i in range(len(accept))]
-        seen, acc, nm = set(), [], []
+        seen, acc, nm = {}, [], []
         for o, n in zip(accept, names):
             k = o if o is FAIL else o.key()
             if k not in seen:
-                seen.add(k)
+                seen[k] = len(acc)
                 acc.append(o)
                 nm.append(n)
+            elif n not in nm[seen[k]].split("|"):
+                nm[seen[k]] += "|" + n          # an outcome several readings agree on carries all their names
         self.accept, self.declared, self.open, self.readings = acc, declared, open, tuple(nm)
 
     def reading_of(self, observed):
